@@ -16,7 +16,7 @@ MANIFEST = dict(
         "batches (tile_Site*, ranges_cover_exactly_once). Every SHARK_PARALLEL_FOR region of the library is inventoried on every "
         "run and its text hash compared with the reviewed access summary that maps it to one of these theorems; any new or "
         "changed region breaks the tie. Runtime side: each listed routine is run with 1,2,3,4,8,16 threads on exact data and must "
-        "be bit-identical to the single-threaded run; concurrent shared dataset copies are checked; thorough tier: ThreadSanitizer (clang+libomp+Archer)."),
+        "be bit-identical to the single-threaded run; concurrent shared dataset copies are checked; the same harness runs under ThreadSanitizer (clang+libomp+Archer)."),
   note=TRUST + "PARTIAL: the access summaries are hand-written abstractions of the C++ regions (a write the summary misses is invisible "
        "to the theorems; only the runtime side can reveal it); the C++ memory model, the OpenMP runtime and code called from "
        "inside the regions (models, kernels, losses) are not modelled; RFTrainer and NegativeLogLikelihood are covered by the "
@@ -35,7 +35,13 @@ def translate(ctx):
 
 
 def build(ctx):
-    return ctx.harness("c20", ["c20.cpp"], repo_sources=SRC, san=False)
+    exe = ctx.harness("c20", ["c20.cpp"], repo_sources=SRC, san=False)
+    if exe and not hasattr(ctx, "_no_tsan_prebuild"):
+        try:
+            build_tsan(ctx)
+        except Exception as e:
+            ctx.log(f"tsan prebuild failed: {e}")
+    return exe
 
 
 def build_tsan(ctx):
@@ -94,7 +100,7 @@ def run_sweep(ctx, exe, cases, tag, env=None, timeout=1500):
 def run(ctx):
     ctx.trusted += ["translator translate/par_regions.py (range arithmetic via translate/cexpr.py; region inventory by text hash)",
                     "reviewed table translate/par_summaries.json (hand-written access summaries: modelled, not verified)",
-                    "runtime harness harness/c20.cpp; clang-14 ThreadSanitizer + libomp + Archer (thorough tier)"]
+                    "runtime harness harness/c20.cpp; clang-14 ThreadSanitizer + libomp + Archer"]
     ctx.assumptions += ["sequentially consistent interleaving semantics; a critical section is one atomic step",
                         "exact data (small integers): any schedule dependence of a sum shows as a bit difference",
                         "default OpenMP schedule (static) for the thread-indexed kNN heaps"]
@@ -139,11 +145,11 @@ def run(ctx):
         seen.add(key); found = True
         ctx.violation(key, {"harness_cmd": [exe], "ops": [case], "line": l}, True,
                       f"result depends on thread count/schedule: {l}")
-    # ThreadSanitizer: always in the thorough tier; in the quick tier only when the static tie broke
-    if (not ctx.quick) or broken_tie:
+    # ThreadSanitizer (clang + libomp + Archer): every run, more cases in the thorough tier / after a broken tie
+    if True:
         tsan = build_tsan(ctx)
         if tsan:
-            tc = gen_cases(ctx, 2 if ctx.quick else 6, 1)
+            tc = gen_cases(ctx, 2 if (ctx.quick and not broken_tie) else 6, 1)
             env = {"TSAN_OPTIONS": "ignore_noninstrumented_modules=1 halt_on_error=0 exitcode=0", "OMP_NUM_THREADS": "4"}
             rc2, lines2, err2, fails2 = run_sweep(ctx, tsan, tc, "tsan", env=env, timeout=3000)
             races = re.findall(r"WARNING: ThreadSanitizer: data race.*?(?=\n=+\n|\Z)", err2, flags=re.S)
